@@ -803,6 +803,10 @@ func CancelQuery(qid uint64) {
 	rQuery, ok := allRunningQueries[qid]
 	arqMapLock.RUnlock()
 	if !ok {
+		// The query may not have been admitted yet; cancel it in the waiting queue
+		if cancelWaitingQuery(qid) {
+			return
+		}
 		log.Debugf("CancelQuery: qid %+v does not exist!", qid)
 		verifhook.At("q.cancel.miss", "qid", qid)
 		return
@@ -826,6 +830,38 @@ func CancelQuery(qid uint64) {
 
 	rQuery.StateChan <- &QueryStateChanData{StateName: CANCELLED, Qid: qid}
 	verifhook.At("q.cancel.sent", "qid", qid)
+}
+
+// Cancels a query that is still in the waiting queue: removes it from the queue so
+// that it never runs, and tells its listener that it was cancelled.
+// Returns false if the query is not waiting.
+func cancelWaitingQuery(qid uint64) bool {
+	var rQuery *RunningQueryState
+
+	waitingQueriesLock.Lock()
+	for i, wsData := range waitingQueries {
+		if wsData.qid == qid {
+			rQuery = wsData.rQuery
+			waitingQueries = append(waitingQueries[:i], waitingQueries[i+1:]...)
+			break
+		}
+	}
+	waitingQueriesLock.Unlock()
+
+	if rQuery == nil {
+		return false
+	}
+
+	rQuery.rqsLock.Lock()
+	rQuery.isCancelled = true
+	if rQuery.cleanupCallback != nil {
+		rQuery.cleanupCallback()
+	}
+	rQuery.rqsLock.Unlock()
+
+	rQuery.StateChan <- &QueryStateChanData{StateName: CANCELLED, Qid: qid}
+
+	return true
 }
 
 func GetBucketsForQid(qid uint64) (map[string]*structs.AggregationResult, error) {
